@@ -63,6 +63,7 @@ type Target struct {
 	sync            bool               // denotes whether this cache is in sync with target
 	meta            *metadata.Metadata // metadata associated with target
 	lat             *latency.Latency   // latency measurements
+	wmu             sync.Mutex         // serialises tree write + feed notification of one operation
 	tsmu            sync.Mutex         // protects latest timestamp
 	ts              time.Time          // latest timestamp for an update
 	excludedMeta    stringset.Set      // set of metadata not to generate update for
@@ -384,6 +385,10 @@ func (c *Cache) GnmiUpdate(n *pb.Notification) error {
 // each individual Update/Delete is sent to cache as
 // a separate gnmi.Notification.
 func (t *Target) GnmiUpdate(n *pb.Notification) error {
+	// An update's notification must not be overtaken by a later delete's (or
+	// vice versa): hold the write lock across tree write and feed callback.
+	t.wmu.Lock()
+	defer t.wmu.Unlock()
 	updateTS := false
 	if u := n.GetUpdate(); len(u) > 0 {
 		// Decide on the index path (prefix + path, or the prefix alone for an
@@ -713,6 +718,12 @@ func (t *Target) updateSize(func(*ctree.Leaf)) {
 
 // updateMeta updates the metadata values in the cache.
 func (t *Target) updateMeta(clients func(*ctree.Leaf)) {
+	t.wmu.Lock()
+	defer t.wmu.Unlock()
+	t.updateMetaLocked(clients)
+}
+
+func (t *Target) updateMetaLocked(clients func(*ctree.Leaf)) {
 	t.tsmu.Lock()
 	latest := t.ts
 	t.tsmu.Unlock()
@@ -787,11 +798,13 @@ func (t *Target) generateMetaUpdates(clients func(*ctree.Leaf)) {
 // Reset clears the Target of stale data upon a reconnection and notifies
 // cache client of the removal.
 func (t *Target) Reset() {
+	t.wmu.Lock()
+	defer t.wmu.Unlock()
 	// Clear latest timestamp received from device.
 	t.resetTimestamp()
 	// Reset metadata to zero values (e.g. connected = false) and notify clients.
 	t.meta.Clear()
-	t.updateMeta(t.client)
+	t.updateMetaLocked(t.client)
 	for root := range t.t.Children() {
 		if root == metadata.Root {
 			continue
